@@ -293,6 +293,12 @@ func cmdCheck(args []string) {
 			viols = append(viols, violation{ob, "replaces discharged obligation " + old + " and is not provable"})
 			continue
 		}
+		if decisiveKind(ob.Kind) && baseUndFK[fk] == 0 {
+			// syntactic disciplines: every obligation of such a kind on the pinned tree is in the ledger
+			// (discharged or listed undecided by name), so one that fails now was introduced by the change
+			viols = append(viols, violation{ob, "new failing obligation of the discipline '" + ob.Kind + "'"})
+			continue
+		}
 		if baseFn[ob.Fn] && baseUndFK[fk] == 0 {
 			// every obligation of this kind in this function was proved on the pinned tree; the changed
 			// function now contains one that cannot be proved
@@ -542,4 +548,12 @@ func repoCommit(dir string) string {
 		}
 	}
 	return s
+}
+
+func decisiveKind(k string) bool {
+	switch k {
+	case "map-order", "forbid-call", "immutable-store", "loop-complete":
+		return true
+	}
+	return false
 }
